@@ -20,8 +20,23 @@ from .common import rat, unrat, vec, close, shrink_list
 # --------------------------------------------------------------------------- implementation adaptors
 
 
+_LIVE = {}
+
+
 def _params(bounds):
-    return [{"name": "x_%d" % i, "bounds": [lb, ub]} for i, (lb, ub) in enumerate(bounds)]
+    """Parameter declarations are long-lived objects in real use (problem.parameters is handed to one generator
+    after the other): the same list object is reused for every case with the same bounds, and a generator that
+    edited the declared box would corrupt the cases that follow (checked in `_guard_params`)."""
+    key = repr([list(b) for b in bounds])
+    if key not in _LIVE:
+        _LIVE[key] = [{"name": "x_%d" % i, "bounds": [lb, ub]} for i, (lb, ub) in enumerate(bounds)]
+    return _LIVE[key]
+
+
+def params_intact(bounds):
+    key = repr([list(b) for b in bounds])
+    live = _LIVE.get(key)
+    return live is None or [list(p["bounds"]) for p in live] == [list(b) for b in bounds]
 
 
 def _names(k):
@@ -591,6 +606,12 @@ def build_cases(ctx):
     for n in range(1, (11 if q else 17)):
         for _ in range(2 if q else 6):
             cases.append(("bbb", {"bounds": gen_bounds(rng, n)}))
+    # sequences of different generators on ONE long-lived parameter list (Box-Behnken -> Plackett-Burman ->
+    # Box-Behnken -> full factorial -> Box-Behnken): each design must be what its generator promises whatever ran before
+    for n in (3, 4, 5) if q else (3, 4, 5, 6, 7, 8):
+        b = gen_bounds(rng, n)
+        for kind in ("bbb", "pbb", "bbb", "ffc", "pbb", "bbb"):
+            cases.append((kind, {"bounds": [list(x) for x in b], "center": True} if kind == "ffc" else {"bounds": [list(x) for x in b]}))
     # ---- GSD
     gs = []
     for lv in ([], [3], [1], [6]):
